@@ -225,13 +225,16 @@ impl StringPool {
 
     /// Returns true if all of the given strings can be interned, each the
     /// given number of times, without exceeding the number of entries that
-    /// string references can address, given that `num_released` entries will
-    /// become unused first.  (An entry holds at most `u16::MAX` references,
-    /// so a string that is referenced more often needs several entries.)
+    /// string references can address, given that the references counted in
+    /// `released` (string reference number -> number of references) will be
+    /// released first.  (An entry holds at most `u16::MAX` references, so a
+    /// string that is referenced more often needs several entries; an entry
+    /// all of whose references are released becomes unused, and no longer
+    /// holds its string.)
     pub(crate) fn has_room_for<'a, I>(
         &self,
         strings: I,
-        num_released: usize,
+        released: &HashMap<i32, u32>,
     ) -> bool
     where
         I: Iterator<Item = (&'a str, usize)>,
@@ -254,13 +257,16 @@ impl StringPool {
         if self.strings.len() + upper_bound <= max_entries {
             return true;
         }
-        let mut num_unused = num_released;
-        for (string, refcount) in self.strings.iter() {
-            if *refcount == 0 {
+        let mut num_unused = 0;
+        for (index, (string, refcount)) in self.strings.iter().enumerate() {
+            let num_released = released
+                .get(&(index as i32 + 1))
+                .map_or(0, |&count| count as usize);
+            let remaining = (*refcount as usize).saturating_sub(num_released);
+            if remaining == 0 {
                 num_unused += 1;
             } else if let Some(count) = new_refs.get_mut(string.as_str()) {
-                let room = max_refcount - (*refcount as usize);
-                *count = count.saturating_sub(room);
+                *count = count.saturating_sub(max_refcount - remaining);
             }
         }
         let num_needed: usize =
